@@ -35,6 +35,7 @@ struct Reg
 };
 static Reg R;
 
+// payload types of 12, 76 and 4804 bytes (below and above every plausible small-object threshold)
 template <int K>
 struct P
 {
@@ -145,10 +146,10 @@ static int read_id(const quaint_ptr& p, int K)
     {
     case 1:
         return p.as<P<1>>().id;
-    case 3:
-        return p.as<P<3>>().id;
+    case 9:
+        return p.as<P<9>>().id;
     default:
-        return p.as<P<7>>().id;
+        return p.as<P<600>>().id;
     }
 }
 
@@ -228,8 +229,8 @@ static std::vector<QOp> qalphabet(std::size_t n)
     {
         std::string si = std::to_string(i);
         ops.push_back({ "s" + si + "=make<P1>", [i](QWorld& w) { make_into<1>(w, i); } });
-        ops.push_back({ "s" + si + "=make<P3>", [i](QWorld& w) { make_into<3>(w, i); } });
-        ops.push_back({ "s" + si + "=make<P7>", [i](QWorld& w) { make_into<7>(w, i); } });
+        ops.push_back({ "s" + si + "=make<P9>", [i](QWorld& w) { make_into<9>(w, i); } });
+        ops.push_back({ "s" + si + "=make<P600>", [i](QWorld& w) { make_into<600>(w, i); } });
         ops.push_back({ "s" + si + ".reset()", [i](QWorld& w) {
                            w.slot[i]->reset();
                            w.kill(w.mslot[i]);
